@@ -188,10 +188,12 @@ def judge(case, rng, feeds_first=None):
         else:
             out["unsupported_single_site"] = [e[:80] for s, e in singles if s == "err"][:1]
         return out
-    import onnx
+    from harness import lib_isolate as ISO
 
     try:
-        onnx.checker.check_model(m, full_check=True)
+        L.check_full(m)
+    except ISO.Aborted as e:
+        out["fails"].append(("runtime-aborted", f"onnx.checker kills the process on the returned model: {e}"))
     except Exception as e:  # noqa: BLE001
         out["fails"].append(("model-not-runnable", f"full checker: {str(e)[:260]}"))
     for b in C14.definitions_per_key(m):
@@ -212,7 +214,9 @@ def judge(case, rng, feeds_first=None):
         got, rt = C14.run_model(m, feeds)
         out["runtime"] = rt
         if got is None:
-            if rt.startswith("invalid"):
+            if rt.startswith("aborted"):
+                out["fails"].append(("runtime-aborted", rt))
+            elif rt.startswith("invalid"):
                 out["fails"].append(("model-not-runnable", rt))
             break
         name = C14._differs(got, want)
